@@ -50,6 +50,11 @@ func toRegexString(pattern string) string {
 	pattern = "^" + pattern + "$"
 	pattern = strings.ReplaceAll(pattern, "+", "\\+")         // escape +
 	pattern = strings.ReplaceAll(pattern, ".", "\\.")         // escape .
+	pattern = strings.ReplaceAll(pattern, "(", "\\(")         // escape the other regexp metacharacters that can be in file names
+	pattern = strings.ReplaceAll(pattern, ")", "\\)")
+	pattern = strings.ReplaceAll(pattern, "|", "\\|")
+	pattern = strings.ReplaceAll(pattern, "{", "\\{")
+	pattern = strings.ReplaceAll(pattern, "}", "\\}")
 	pattern = strings.ReplaceAll(pattern, "?", "[^/]")        // match ? as any single char of a path component
 	pattern = strings.ReplaceAll(pattern, "*", "[^/]*")       // handle single (all) * components
 	pattern = strings.ReplaceAll(pattern, "[^/]*[^/]*", ".*") // handle ** components
